@@ -6,6 +6,7 @@ import (
 	"os"
 	"runtime"
 	"runtime/debug"
+	"runtime/pprof"
 	"strconv"
 	"strings"
 	"time"
@@ -70,7 +71,13 @@ func cmdRun(args []string) int {
 	verbose := fs.Bool("v", false, "verbose")
 	params := paramFlag{}
 	fs.Var(params, "p", "harness parameter name=value (repeatable)")
+	prof := fs.String("cpuprofile", "", "write cpu profile")
 	fs.Parse(args)
+	if *prof != "" {
+		f, _ := os.Create(*prof)
+		pprof.StartCPUProfile(f)
+		defer pprof.StopCPUProfile()
+	}
 	cfg := &Config{Harness: *fn, Pkg: *pkg, Params: params, Workers: *workers, Budget: *budget, MaxPaths: *maxPaths,
 		ConcretizeCap: *ccap, TimeoutMs: *timeout, CrossEvery: *cross, KeepSamples: 20, Known: loadKnownIDs()}
 	if *deadline > 0 {
